@@ -8,7 +8,9 @@ _T = ["md_chunks", "sha256_chunks", "sha512_chunks", "blake2b_chunks", "generich
       "poly1305_chunks", "hmac_chunks", "hkdf_expand_eq_rfc", "chunkLaw_sha256", "chunkLaw_sha512", "hmacsha256_chunks",
       "hmacsha512_chunks", "hkdf_sha256_expand", "hkdf_sha512_expand"]
 THEOREMS = vcore.theorems_in("SodiumModel/Properties/C04.lean", _T, "Sodium.C04")
+THEOREMS = THEOREMS + vcore.theorems_in("SodiumModel/Properties/C04Poly.lean", ['init_spec', 'init_inv', 'blocks_spec', 'blocks_no_overflow', 'finish_spec', 'donna64_eq_abstract', 'donna64_mac_eq_spec', 'donna64_mac_oneshot'], "Sodium.C04Poly")
 IMPORTS = ["SodiumModel.Properties.C04"] if THEOREMS else ["SodiumModel.Model.Hash"]
+IMPORTS = IMPORTS + ["SodiumModel.Properties.C04Poly"]
 RULE = ("every message length 0..1100 one-shot; chunk lists: all 2-way splits at block boundaries +-1, 3-way splits, random splits with "
         "empty chunks, byte-at-a-time; BLAKE2b every key length 0..64 and output length 1..64 (+ out of range), salt/personal; HMAC keys "
         "0..200 bytes; HKDF every output length around multiples of the hash length and the 255-block limit; Poly1305 adversarial inputs "
